@@ -106,6 +106,15 @@ func getCmi(cmbuf []byte) (*structs.CmiContainer, error) {
 
 	switch cmbuf[0] {
 	case sutils.CMI_BLOOM_INDEX[0]:
+		// m (8 bytes), k (8 bytes), then the bitset
+		if len(cmbuf) < 1+16 {
+			log.Errorf("getCmi: bloom cmi of %v bytes is too short", len(cmbuf))
+			return nil, errors.New("getCmi: bloom cmi is too short")
+		}
+		if bserr := utils.CheckSerializedBitsetFits(cmbuf[1+16:]); bserr != nil {
+			log.Errorf("getCmi: failed to convert bloom cmi %+v", bserr)
+			return nil, bserr
+		}
 		bufRdr := bytes.NewReader(cmbuf[1:])
 		blkBloom := &bloom.BloomFilter{}
 		_, bferr := blkBloom.ReadFrom(bufRdr)
